@@ -23,6 +23,7 @@ def run():
     res.add_tlc("Validation: SollEquivalence on every AHB <= 3 nodes with all 13 labels", t3)
     V.replay_dump("C14", dump3, res, stride=(1 if thorough else 5))
     dump3.unlink()
+    V.large_metamorphic("C14", res, 600 if thorough else 60)
     res.coverage["exhaustive"] = thorough
     res.coverage["rule"] = ("one case = an AHB tree with at least one SOLL node: validated by the real code with soll_is_required=True/False and, for each, the "
                             "AHB whose SOLL indicator words are textually replaced by Muss / Kann under both flag values; the four pairs must be "
